@@ -754,18 +754,12 @@ impl C15 {
                     let am = model[a];
                     let av = regs[a];
                     let v = av.fold_in(bv);
-                    // model: union, position by position
+                    // model: union, position by position, over all 64 positions — a set may
+                    // carry bits above the card range (that is what makes it invalid) and
+                    // folding in must neither lose nor invent them
                     let mut m = Set::EMPTY;
-                    for pbit in 0..52 {
+                    for pbit in 0..64 {
                         m.m[pbit] = am.m[pbit] || bm.m[pbit];
-                    }
-                    // overflow bits may stay or vanish but never appear from nowhere (DESIGN §4.4)
-                    let got = Set::from_bits(v);
-                    for pbit in 52..64 {
-                        if got.m[pbit] && !(am.m[pbit] || bm.m[pbit]) {
-                            return Self::fail(&ctx, step, "S5-overflow-appeared", kind, sub, format!("fold_in produced bit {} which neither operand had: {:#018x}.fold_in({:#018x}) = {:#018x}", pbit, av, bv, v), obs);
-                        }
-                        m.m[pbit] = got.m[pbit];
                     }
                     let (ac, bc) = (am.to_bits() & CARD_MASK, bm.to_bits() & CARD_MASK);
                     if b_is_self {
@@ -1054,11 +1048,11 @@ impl C15 {
                         return Some(Self::fail(ctx, step, "S3-peel", kind, "remove", format!("peel on {:#018x} {} returned {} but left {:#018x} {}; expected exactly that card removed", before, set_str(before), card_name(i), after, set_str(after)), obs));
                     }
                 }
+                // removing a card removes that card only: bits above the card range stay as they were
                 for pbit in 52..64 {
-                    if am.m[pbit] && !bm.m[pbit] {
-                        return Some(Self::fail(ctx, step, "S5-overflow-appeared", kind, "peel", format!("peel on {:#018x} left {:#018x}: bit {} appeared", before, after, pbit), obs));
+                    if am.m[pbit] != bm.m[pbit] {
+                        return Some(Self::fail(ctx, step, "S3-peel", kind, "remove-high-bits", format!("peel on {:#018x} {} returned {} and left {:#018x}: bit {} above the card range changed; expected exactly the returned card removed", before, set_str(before), card_name(i), after, pbit), obs));
                     }
-                    m.m[pbit] = am.m[pbit];
                 }
                 *model = m;
                 None
@@ -1685,11 +1679,10 @@ impl World for C15 {
                 "invariants",
                 J::Arr(
                     [
-                        "S1 after every step every register equals its model (card bits strictly; bits above 51 tracked exactly)",
+                        "S1 after every step every register equals its model on all 64 bit positions (fold_in is union of everything both operands hold)",
                         "S2 has = subset test, number_of_cards = member count, is_single_card = exactly one, is_valid = non-empty and nothing above bit 51",
-                        "S3 peel returns the member that comes first in deck order and removes exactly it; with no card bits it returns blank and changes nothing",
+                        "S3 peel returns the card that comes first in deck order and removes exactly it (bits above 51 untouched); with no card bits it returns blank and changes nothing",
                         "S4 drain lists exactly the members, in deck order, then blank twice without change; cut off at 65 peels",
-                        "S5 bits above 51 never appear from nowhere in fold_in or peel",
                         "frame: registers not named by the operation are unchanged",
                     ]
                     .iter()
@@ -1700,7 +1693,7 @@ impl World for C15 {
             .with(
                 "not_demanded",
                 J::Arr(
-                    ["whether bits above 51 survive fold_in / peel (they may stay or vanish)", "number_of_cards / is_single_card on values with bits above 51 (either reading accepted)", "non-card words in hands", "which character sequences parse as cards beyond: a listed two-character spelling, optionally followed by a tail (C12: a token is a card iff it starts with rank+suit symbols)"].iter().map(|s| J::str(s)).collect(),
+                    ["number_of_cards / is_single_card on values with bits above 51 (either reading accepted)", "non-card words in hands", "which character sequences parse as cards beyond: a listed two-character spelling, optionally followed by a tail (C12: a token is a card iff it starts with rank+suit symbols)"].iter().map(|s| J::str(s)).collect(),
                 ),
             )
     }
